@@ -420,29 +420,30 @@ theorem stripNl_of_validate {t : Bytes} (h : validate t = .ok ()) : stripNl t = 
 def Unfold64 (s t : Bytes) : Prop :=
   ((s.length < 65 ∨ s.getD 64 0 ≠ NL) ∧ t = s) ∨ (65 ≤ s.length ∧ s.getD 64 0 = NL ∧ Lines64 s t)
 
-theorem store_ok_iff (len : List (Int × Int)) (hints : Nat) (s : Bytes) (v : BVal) :
-    store len hints s = .ok v ↔
-      (checkHints hints "binary").isSome = true ∧ stripNl s = .ok v.canon ∧ validate v.canon = .ok () ∧ v.data = decode v.canon ∧
-        validateRange (rangeIsUnsigned "binary") len (v.data.length : Nat) = true := by
+theorem storeWith_ok_iff (r : Bool) (len : List (Int × Int)) (hints : Nat) (s : Bytes) (v : BVal) :
+    storeWith r len hints s = .ok v ↔
+      (checkHints hints "binary").isSome = true ∧ ∃ t, stripNl s = .ok t ∧ validate t = .ok () ∧ v.data = decode t ∧
+        v.canon = (if r then encode v.data else t) ∧ validateRange (rangeIsUnsigned "binary") len (v.data.length : Nat) = true := by
   cases hh : checkHints hints "binary" with
-  | none => simp [store, hh]
+  | none => simp [storeWith, hh]
   | some b =>
     cases hs : stripNl s with
-    | error e => simp [store, hh, hs]
+    | error e => simp [storeWith, hh, hs]
     | ok t =>
       cases hv : validate t with
       | error e =>
-        have e1 : store len hints s = .error e := by simp [store, hh, hs, hv]
+        have e1 : storeWith r len hints s = .error e := by simp [storeWith, hh, hs, hv]
         rw [e1]
         constructor
         · intro h; cases h
-        · rintro ⟨_, h2, h3, _⟩
+        · rintro ⟨_, t', h2, h3, _⟩
           simp only [Except.ok.injEq] at h2
           rw [← h2, hv] at h3; cases h3
       | ok u =>
-        have e1 : store len hints s =
-            if validateRange (rangeIsUnsigned "binary") len ((decode t).length : Nat) = true then .ok ⟨decode t, t⟩ else .error .Length := by
-          simp [store, hh, hs, hv]
+        have e1 : storeWith r len hints s =
+            if validateRange (rangeIsUnsigned "binary") len ((decode t).length : Nat) = true then .ok ⟨decode t, if r then encode (decode t) else t⟩
+            else .error .Length := by
+          simp [storeWith, hh, hs, hv]
         rw [e1]
         simp only [Option.isSome_some, true_and, Except.ok.injEq]
         by_cases hr : validateRange (rangeIsUnsigned "binary") len ((decode t).length : Nat) = true
@@ -451,27 +452,40 @@ theorem store_ok_iff (len : List (Int × Int)) (hints : Nat) (s : Bytes) (v : BV
           · intro h
             simp only [Except.ok.injEq] at h
             subst h
-            exact ⟨rfl, hv, rfl, hr⟩
-          · rintro ⟨h2, _, hd, _⟩
+            exact ⟨t, rfl, hv, rfl, rfl, hr⟩
+          · rintro ⟨t', h2, _, hd, hc, _⟩
+            subst h2
             cases v with
             | mk d c =>
-              simp only at h2 hd
-              subst h2; subst hd; rfl
+              simp only at hd hc
+              subst hd; subst hc; rfl
         · rw [if_neg hr]
           constructor
           · intro h; cases h
-          · rintro ⟨h2, _, hd, h⟩
-            rw [hd, ← h2] at h; exact absurd h hr
+          · rintro ⟨t', h2, _, hd, _, h⟩
+            subst h2
+            rw [hd] at h; exact absurd h hr
 
-theorem store_hints (len : List (Int × Int)) (s : Bytes) {h1 h2 : Nat} (a : (checkHints h1 "binary").isSome = true)
-    (b : (checkHints h2 "binary").isSome = true) : store len h1 s = store len h2 s := by
-  unfold store
+theorem storeWith_hints (r : Bool) (len : List (Int × Int)) (s : Bytes) {h1 h2 : Nat} (a : (checkHints h1 "binary").isSome = true)
+    (b : (checkHints h2 "binary").isSome = true) : storeWith r len h1 s = storeWith r len h2 s := by
+  unfold storeWith
   cases e1 : checkHints h1 "binary" with
   | none => rw [e1] at a; cases a
   | some x =>
     cases e2 : checkHints h2 "binary" with
     | none => rw [e2] at b; cases b
     | some y => rfl
+
+/-- a text of at most 64 bytes is left alone by `binary_base64_newlines` -/
+theorem unfold64_short {s t : Bytes} (hs : s.length < 65) (h : Unfold64 s t) : t = s := by
+  rcases h with ⟨_, e⟩ | ⟨h1, _⟩
+  · exact e
+  · omega
+
+theorem unlybWith_ok_iff (c : Bool) (len : List (Int × Int)) (o : Bytes) (w : BVal) :
+    unlybWith c len o = .ok w ↔ w = ⟨o, encode o⟩ ∧ (c = false ∨ validateRange (rangeIsUnsigned "binary") len (o.length : Nat) = true) := by
+  unfold unlybWith
+  cases c <;> cases hr : validateRange (rangeIsUnsigned "binary") len (o.length : Nat) <;> simp [eq_comm]
 
 /-! ## compare and sort -/
 
